@@ -13,6 +13,7 @@ import (
 )
 
 type Obligation struct {
+	incomplete bool // some uninterpreted function had too many applications for pairwise congruence axioms
 	name     string
 	props    []string
 	contract *Contract
@@ -179,7 +180,9 @@ func (x *Exec) oblige(st *State, name string, goal *Term, what string) {
 	if n := x.oblCount[full]; n > 1 || x.pathNaming[full] {
 		x.pathNaming[full] = true
 	}
+	congruenceSkipped = false
 	assume := x.assumptions(st)
+	incomplete := congruenceSkipped
 	if len(st.gen) > 0 {
 		// generalisation is applied uniformly to hypotheses and goal (proving the more general VC)
 		cache := map[int]*Term{}
@@ -197,6 +200,7 @@ func (x *Exec) oblige(st *State, name string, goal *Term, what string) {
 	for _, gl := range goals {
 		o := &Obligation{name: full, props: props, contract: ct, goal: gl, what: what, path: x.oblCount[full], inputs: x.curInputs}
 		o.assume = assume
+		o.incomplete = incomplete
 		o.apps = st.apps
 		o.entry = x.entryState
 		o.skolems = x.curSkolems
@@ -520,7 +524,7 @@ func (x *Exec) applyContract(st *State, fn *ssa.Function, cts []*Contract, args 
 		}
 	}
 	if usedPtr {
-		flatArgs = append(flatArgs, mkInt(int64(x.heapEpoch(st))))
+		flatArgs = append(flatArgs, mkInt(int64(x.heapEpochFor(st, args))))
 	}
 	for i := 0; i < res.Len(); i++ {
 		if pure && !isErrorType(res.At(i).Type()) && ufSupported(res.At(i).Type()) {
@@ -670,7 +674,7 @@ func (x *Exec) applyContract(st *State, fn *ssa.Function, cts []*Contract, args 
 	if x.specMode > 0 {
 		return []Out{{st: st, vals: vals}}
 	}
-	st.log = append(st.log, Event{kind: "call:" + qualifiedName(fn), args: snap, res: vals})
+	st.log = append(st.log, Event{kind: "call:" + qualifiedName(fn), args: snap, res: vals, raw: append([]Value{}, args...)})
 	st.version++
 	return []Out{{st: st, vals: vals}}
 }
@@ -838,6 +842,55 @@ func qualifiedName(fn *ssa.Function) string {
 		}
 	}
 	return fn.Name()
+}
+
+// heapEpochFor: the epoch relevant to a reads-only call with these arguments.
+// When every pointer argument points to pointer-free data (a plain value
+// object), only writes to those objects' own cells can change what the callee
+// reads; otherwise the global epoch is used.
+func (x *Exec) heapEpochFor(st *State, args []Value) int {
+	own := map[int]bool{}
+	for _, a := range args {
+		switch p := a.(type) {
+		case *Ptr:
+			if p.cell == nil {
+				continue
+			}
+			if p.cell.typ == nil || hasPointers(p.cell.typ, 0) {
+				return x.heapEpoch(st)
+			}
+			own[p.cell.id] = true
+		case *SliceV, *MapV, *Iface, *Func, *AbsObj, *Opaque:
+			return x.heapEpoch(st)
+		}
+	}
+	n := 0
+	for _, id := range st.wlog {
+		if own[id] {
+			n++
+		}
+	}
+	return n
+}
+
+func hasPointers(t types.Type, depth int) bool {
+	if depth > 8 {
+		return true
+	}
+	switch u := t.Underlying().(type) {
+	case *types.Basic:
+		return u.Kind() == types.UnsafePointer || u.Info()&types.IsString != 0 && false
+	case *types.Struct:
+		for i := 0; i < u.NumFields(); i++ {
+			if hasPointers(u.Field(i).Type(), depth+1) {
+				return true
+			}
+		}
+		return false
+	case *types.Array:
+		return hasPointers(u.Elem(), depth+1)
+	}
+	return true
 }
 
 func bindResults(env *Env, fn *ssa.Function, vals []Value) {
@@ -1199,7 +1252,7 @@ func (x *Exec) evalLetFork(st *State, env *Env, e Expr) []specOut {
 		if _, bound := env.lookup(id.name); !bound {
 			_, isSpec := x.specs[id.name]
 			switch id.name {
-			case "sq", "abs", "min", "max", "sqrt", "ite", "real", "floor", "len", "old", "pre", "isnil", "sin", "cos", "nsent", "sent", "samecell", "maphas", "mapval", "nev", "evarg", "evbefore", "evres", "merged", "pow2", "nevmatch":
+			case "sq", "abs", "min", "max", "sqrt", "ite", "real", "floor", "len", "old", "pre", "isnil", "sin", "cos", "nsent", "sent", "samecell", "maphas", "mapval", "nev", "evarg", "evptr", "evbefore", "evres", "merged", "pow2", "nevmatch":
 				isSpec = true
 			}
 			if isSpec {
@@ -1622,7 +1675,7 @@ func mentionsEvents(e Expr) bool {
 		case *ECall:
 			if id, ok := n.fun.(*EIdent); ok {
 				switch id.name {
-				case "nev", "evarg", "evres", "evbefore", "nevmatch", "nsent", "sent":
+				case "nev", "evarg", "evptr", "evres", "evbefore", "nevmatch", "nsent", "sent":
 					found = true
 				}
 			}
